@@ -135,13 +135,14 @@ type World struct {
 	stalledUntil        map[string]int // task key -> scheduler step until which it is passed over
 	recordYields        bool           // fault enumeration: remember every yield that admits a fault
 	yields              []YieldSite
-	victims             map[string]int    // op id -> how often one of its statements was the victim of an organic deadlock
-	victimTraceIdx      map[string]int    // op id -> length of the step trace when it was last a victim
-	refusals            map[string]string // task -> the feature refusal the storage layer raised for its read
-	unscoped            []UnscopedRead    // read statements with fewer ledger predicates than bucket-table references (auditRead)
-	misreads            []FeatureMisread  // read statements that need a feature the ledger has disabled (auditRead)
-	lenientReads        bool              // see unmodelled
-	sites               [][3]string       // (task, store call, fault fired or "") for every step at a yield that admits faults
+	victims             map[string]int             // op id -> how often one of its statements was the victim of an organic deadlock
+	victimTraceIdx      map[string]int             // op id -> length of the step trace when it was last a victim
+	readTables          map[string]map[string]bool // task -> tables of the bucket its read statements referenced (auditRead)
+	refusals            map[string]string          // task -> the feature refusal the storage layer raised for its read
+	unscoped            []UnscopedRead             // read statements with fewer ledger predicates than bucket-table references (auditRead)
+	misreads            []FeatureMisread           // read statements that need a feature the ledger has disabled (auditRead)
+	lenientReads        bool                       // see unmodelled
+	sites               [][3]string                // (task, store call, fault fired or "") for every step at a yield that admits faults
 	mu                  sync.Mutex
 	db                  *DB
 	eventCtr            uint64
